@@ -52,6 +52,14 @@ func main() {
 		if c.Shape.Kind == "image" && rng.Intn(2) == 0 {
 			c.Shape.Kind = "index"
 		}
+		if gi%8 == 5 {
+			// a manifest under two parents of one copy: whoever does not copy it himself waits for the one who does,
+			// and must wait until it is WRITTEN
+			c.Shape.Kind, c.Shape.SharedChild = "nested", true
+			if c.Shape.Platforms < 2 {
+				c.Shape.Platforms = 2
+			}
+		}
 		c.Procs = 0 // runs execute in parallel; GOMAXPROCS stays at the machine default
 		if gi%2 == 1 {
 			c.Shape.Share = true
